@@ -188,12 +188,13 @@ def run(ctx):
         else:
             ppos, epos = quick_positions(ctx, vals3, 3)
         ctx.cov["mc_lists3"] = dict(pipe_pos=ppos, exec_pos=epos)
-        mcs.append(("mc_lists3", Bg(ctx, "FdShuffle", cfg=mc_cfg(vals3, 3, ppos, epos, 18), workers=4,
-                                    timeout=ctx.pick(300, 1200))))
+        # thorough runs two model checks side by side: 2 workers each (<= 4 in total)
+        mcs.append(("mc_lists3", Bg(ctx, "FdShuffle", cfg=mc_cfg(vals3, 3, ppos, epos, 18), workers=ctx.pick(4, 2),
+                                    timeout=ctx.pick(900, 3000))))
         if t:
             ctx.cov["mc_lists4"] = {}
-            mcs.append(("mc_lists4", Bg(ctx, "FdShuffle", cfg=mc_cfg([0, 1, 2, 3, 5], 4, [1, 3, 5, 6, 7], [0, 2, 4, 6, 7], 20),
-                                        workers=4, timeout=1200)))
+            mcs.append(("mc_lists4", Bg(ctx, "FdShuffle", cfg=mc_cfg([0, 1, 2, 3, 5], 4, [1, 3, 5, 7], [0, 2, 4, 6], 20),
+                                        workers=2, timeout=3000)))
 
     # 2. TLC enumerates the cases
     cgdir = "/sys/fs/cgroup/unified/verif-c06-%d-%d" % (os.getpid(), ctx.seed)
@@ -231,10 +232,13 @@ def real_runs(ctx, t, vals3, replay, cgdir):
     else:
         if t:
             # exhaustive core (short lists, all placements of a small grid) + stratified sample of the big space
-            g0 = ctx.tlc("FdShuffle_Gen", cfg=gen_cfg([0, 1, 3], 2, [1, 2, 4, 5], [0, 2, 4, 5], 3), timeout=600, count=False)
+            g0 = ctx.tlc("FdShuffle_Gen", cfg=gen_cfg([0, 1, 3], 2, [1, 2, 4, 5], [0, 2, 4, 5], 3), timeout=1200, count=False)
             ctx.tlc_ok("FdShuffle_Gen core", g0)
             core = ctx.read_ndjson(os.path.join(g0.dir, "cases.ndjson"))
-            g = ctx.tlc("FdShuffle_Gen", cfg=gen_cfg(vals3, 3, ALLPOS, [0] + ALLPOS, 0), timeout=900, count=False, heap="8g")
+            # sample space: lists <= 3 x 5 of the 9 socket and 5 of the 9 ExecFile positions (by seed)
+            gp, ge = sorted(ctx.rng.sample(ALLPOS, 5)), [0] + sorted(ctx.rng.sample(ALLPOS, 5))
+            ctx.cov["sample_space"] = dict(pipe_pos=gp, exec_pos=ge)
+            g = ctx.tlc("FdShuffle_Gen", cfg=gen_cfg(vals3, 3, gp, ge, 0), timeout=2400, count=False, heap="8g")
             ctx.tlc_ok("FdShuffle_Gen", g)
             big = ctx.read_ndjson(os.path.join(g.dir, "cases.ndjson"))
             sample, nclasses = stratified(ctx, big, 1000)
@@ -246,7 +250,7 @@ def real_runs(ctx, t, vals3, replay, cgdir):
             ct = ctall[:100]
         else:
             mc = ctx.cov["mc_lists3"]
-            g = ctx.tlc("FdShuffle_Gen", cfg=gen_cfg(vals3, 3, mc["pipe_pos"], mc["exec_pos"], 2), timeout=300, count=False)
+            g = ctx.tlc("FdShuffle_Gen", cfg=gen_cfg(vals3, 3, mc["pipe_pos"], mc["exec_pos"], 2), timeout=900, count=False)
             ctx.tlc_ok("FdShuffle_Gen", g)
             big = ctx.read_ndjson(os.path.join(g.dir, "cases.ndjson"))
             direct, nclasses = stratified(ctx, big, 100)
@@ -280,9 +284,9 @@ def real_runs(ctx, t, vals3, replay, cgdir):
         for c in ct:
             fh.write(json.dumps(c) + "\n")
     ctx.vdrive("fdshuffle", ["run", cases_p, probe, work, obs_p, tr_p, "8"] + ([cgdir] if cgdir else []),
-               timeout=ctx.pick(400, 1500))
+               timeout=ctx.pick(1200, 4000))
     ctx.vdrive("fdshuffle", ["container", ctc_p, probe, work, ct_p] + ([cgdir] if cgdir else []),
-               timeout=ctx.pick(200, 600))
+               timeout=ctx.pick(900, 1800))
     obs = ctx.read_ndjson(obs_p)
     ctobs = ctx.read_ndjson(ct_p)
     traces = ctx.read_ndjson(tr_p)
@@ -290,9 +294,9 @@ def real_runs(ctx, t, vals3, replay, cgdir):
         raise vlib.Inconclusive("driver wrote %d/%d direct and %d/%d container lines" % (len(obs), len(direct), len(ctobs), len(ct)))
 
     # 4. property layer: TLC judges every observation (5. the trace validation runs meanwhile)
-    tvb = Bg(ctx, "FdShuffle_Trace", files={"traces.ndjson": traces}, workers=1, timeout=900) if traces else None
+    tvb = Bg(ctx, "FdShuffle_Trace", files={"traces.ndjson": traces}, workers=1, timeout=2400) if traces else None
     try:
-        j = ctx.tlc("FdShuffle_Judge", files={"obs.ndjson": obs, "ctobs.ndjson": ctobs}, timeout=900)
+        j = ctx.tlc("FdShuffle_Judge", files={"obs.ndjson": obs, "ctobs.ndjson": ctobs}, timeout=2400)
     finally:
         if tvb:
             tvb.th.join()
